@@ -49,7 +49,9 @@ func genC09(t *rapid.T) *C09Case {
 		}
 	}
 	anyInbound := func(lbl string) *rig.InMsg {
-		switch rapid.IntRange(0, 4).Draw(t, lbl) {
+		switch rapid.IntRange(0, 5).Draw(t, lbl) {
+		case 5:
+			return &rig.InMsg{Type: rig.TSequenceReset, Seq: g.seq(), Fields: []rig.Tok{rig.F(rig.TagGapFillFlag, "Y"), rig.F(rig.TagNewSeqNo, itoa(g.inSeq+1))}}
 		case 0:
 			return g.heartbeat("1") // the expected answer
 		case 1:
